@@ -3,6 +3,7 @@ package rules
 import (
 	"fmt"
 	"go/types"
+	"sort"
 	"strings"
 
 	"golang.org/x/tools/go/ssa"
@@ -275,3 +276,5 @@ func isParam(s *px.Sym, p *ssa.Parameter) bool {
 	s = s.Strip(false)
 	return s != nil && s.Kind == px.KParam && s.V == p
 }
+
+func sortStrings(s []string) { sort.Strings(s) }
